@@ -4,6 +4,7 @@ import MosnVerif.Model.DownstreamSpec
 import MosnVerif.Drive.C10Tcp
 import MosnVerif.Drive.C09
 import MosnVerif.Drive.C10Flags
+import MosnVerif.Drive.C10Share  -- (c10p10: kind rsh)
 /-!
 C10 driver.  Kind `tcp` (stream proxy sessions on real sockets): see `Drive/C10Tcp.lean`.  Kinds `hist` / `mc`:
 `A` = the model's trace, ledger and done flag equal the implementation's.
@@ -51,6 +52,7 @@ def run (caseToks impl : List String) : String :=
   if caseToks.head? == some "mc" then DownstreamMC.run caseToks else
   if caseToks.head? == some "tcp" then C10Tcp.run caseToks impl else
   if caseToks.head? == some "flg" then C10Flags.run caseToks impl else  -- c10r7: request-info flags × end causes
+  if caseToks.head? == some "rsh" then C10Share.run caseToks impl else  -- c10p10: the ledger across cluster updates (manager identity)
   -- the real pools' ledger (kinds of harness/c09: multiplex pool with one-way requests, HTTP/2 pool): the predicate is the
   -- observation predicate of the pool models — counters equal the truth after every operation
   if caseToks.head? == some "mux" || caseToks.head? == some "h2p" || caseToks.head? == some "win" || caseToks.head? == some "mxw" || caseToks.head? == some "h2w" || caseToks.head? == some "bnd" then MosnVerif.Drive.C09.run caseToks impl else
